@@ -95,8 +95,16 @@ def run(repo):
                          repo.where(st), P))
     # (c)
     ld = repo.func('lp.LinConstr.dual')
-    txt = ntext(ld.node)
-    ok = 'self.model.ciarray == cidx' in txt and 'cidx = self.index' in txt
+    idx_names = {'self.index'}
+    for n in walk_no_nested(ld.node):
+        if isinstance(n, ast.Assign) and ntext(n.value) == 'self.index' and isinstance(n.targets[0], ast.Name):
+            idx_names.add(n.targets[0].id)
+    cmps = [n for n in walk_no_nested(ld.node) if isinstance(n, ast.Compare)
+            and any(isinstance(x, ast.Attribute) and x.attr == 'ciarray' for x in ast.walk(n))]
+    if not cmps:
+        raise AnalysisError('LinConstr.dual: no comparison involving ciarray found')
+    ok = all(isinstance(c.ops[0], ast.Eq) and (ntext(c.left) in idx_names or ntext(c.comparators[0]) in idx_names)
+             for c in cmps)
     res.inst({'LinConstr.dual': 'selects ciarray == self.index', 'ok': ok}, ok)
     if not ok:
         res.fail(Finding(RULE, ld.fq, 'ciarray == index', 'LinConstr.dual must select the rows whose '
